@@ -189,6 +189,9 @@ func buildGraph(gname string, nodes map[string]nodeRec) (*graph, error) {
 				entries = append(entries, dsc)
 			}
 			m["manifests"] = entries
+			if n.A != "" {
+				m["annotations"] = map[string]string{"zzverif.variant": n.A}
+			}
 			o.raw, _ = json.Marshal(m)
 			o.isMan, o.mt = true, manifestMT(n)
 		default:
